@@ -12,6 +12,7 @@ import (
 	"fmt"
 	"math"
 	"math/rand"
+	"sort"
 	"strconv"
 	"strings"
 
@@ -407,11 +408,26 @@ func laneE2E(c *ev.Ctx) {
 	compQuery := ""
 	comp := ""
 	useDir := false
+	// objects that carry attributes of their own (a Content-Encoding, content headers, user metadata): a range is a
+	// range of the stored bytes whatever the attributes say about them
+	altKey := ""
+	altObjs := map[string][]byte{}
+	for i, enc := range []string{"gzip", "br", "deflate", "zstd", "identity", "GZIP"} {
+		b := make([]byte, []int{1000, 70000}[i%2])
+		r.Read(b)
+		k := fmt.Sprintf("encoded-%s-%d", enc, len(b))
+		if resp := cl.PutObject("rng", k, b, "Content-Encoding", enc, "Content-Type", "application/x-tar", "Cache-Control", "no-transform", "X-Amz-Meta-Packed", "yes"); resp.OK() {
+			altObjs[k] = b
+		}
+	}
 	one := func(id string, size int64, h string, head bool) {
 		obj := objs[size]
 		key := fmt.Sprintf("o%d", size)
 		if useDir {
 			key = "dirobj/"
+		}
+		if altKey != "" {
+			key, obj = altKey, altObjs[altKey]
 		}
 		var resp *s3c.Resp
 		method := "GET"
@@ -486,6 +502,9 @@ func laneE2E(c *ev.Ctx) {
 		}
 		if useDir {
 			e.class += "+directory-object"
+		}
+		if altKey != "" {
+			e.class += "+content-encoding:" + strings.SplitN(strings.TrimPrefix(altKey, "encoded-"), "-", 2)[0]
 		}
 		c.Distinct("e2e|" + method + "|" + sizeClass(size) + "|" + e.class)
 		cr := resp.Header.Get("Content-Range")
@@ -565,6 +584,24 @@ func laneE2E(c *ev.Ctx) {
 					comp = k
 					one(id, s, h, false)
 					comp = ""
+				}
+			}
+		}
+	}
+	{
+		var aks []string
+		for k := range altObjs {
+			aks = append(aks, k)
+		}
+		sort.Strings(aks)
+		for ai, k := range aks {
+			sz := int64(len(altObjs[k]))
+			for i, h := range []string{"bytes=100-199", "bytes=0-0", fmt.Sprintf("bytes=%d-", sz-10), "bytes=0-", fmt.Sprintf("bytes=5-%d", sz+50), ""} {
+				id := fmt.Sprintf("e2e/encoded/%d/%d", ai, i)
+				if c.Want(id) {
+					altKey = k
+					one(id, sz, h, false)
+					altKey = ""
 				}
 			}
 		}
